@@ -1,0 +1,15 @@
+//go:build verif
+// +build verif
+
+package streams
+
+// VerifHook is called immediately before every atomic operation of the
+// allocator when the package is built with the "verif" tag (verification
+// harness only). point names the operation, a and b carry its operands.
+var VerifHook func(point string, s *IDGenerator, a, b uint64)
+
+func verifPoint(point string, s *IDGenerator, a, b uint64) {
+	if h := VerifHook; h != nil {
+		h(point, s, a, b)
+	}
+}
